@@ -6,6 +6,7 @@ import (
 	"strconv"
 	"strings"
 	"sync"
+	"time"
 
 	"github.com/google/uuid"
 	"go.dedis.ch/onet/v3"
@@ -35,6 +36,7 @@ type c01env struct {
 	handedTo map[int]string // message -> token id of the instance it was handed to
 	handedN  map[int]int
 	treeOf   map[int]int
+	wantTok  map[int]string // message -> fields of the token it was addressed to
 	sent     [2]int
 	answered [2]int
 	flushN   [2]int   // flush goroutines seen
@@ -117,9 +119,10 @@ func c01exec(c *h.Ctx, cs *h.Case) {
 	}
 	fixMu.Lock()
 	defer fixMu.Unlock()
-	e := &c01env{cl: fix.NewCluster(3, false), ctl: sched.New(), handedTo: map[int]string{}, handedN: map[int]int{}, treeOf: map[int]int{}}
+	e := &c01env{cl: fix.NewCluster(3, false), ctl: sched.New(), handedTo: map[int]string{}, handedN: map[int]int{}, treeOf: map[int]int{}, wantTok: map[int]string{}}
 	defer e.cl.Close()
 	e.ov = e.cl.Overlay(1)
+	e.ov.VerifSetTreeGrace(time.Millisecond)
 	e.ctl.Pass["tm.found"] = true
 	t0, n0 := fix.BuildTree(e.cl.Roster, []int{-1, 0}, []int{0, 1})
 	t1, n1 := fix.BuildTree(e.cl.Roster, []int{-1, 0, 0}, []int{0, 1, 2})
@@ -173,6 +176,7 @@ func c01exec(c *h.Ctx, cs *h.Case) {
 			m, _ := strconv.Atoi(tk[3])
 			e.mu.Lock()
 			e.treeOf[m] = t
+			e.wantTok[m] = fix.TokenKey(token(t, m))
 			e.mu.Unlock()
 			root := e.trees[t].Root
 			env, err := fix.Envelope(root.ServerIdentity, fix.TokenFor(e.trees[t], root, e.rounds[t][m%2]), token(t, m), fix.Payload(3, m))
@@ -249,6 +253,47 @@ func c01exec(c *h.Ctx, cs *h.Case) {
 			if err := e.expectFlush(t, nf); err != nil {
 				bad("no-flush-after-register", err.Error())
 				return false
+			}
+			cs.Impl = append(cs.Impl, e.obs(t))
+		case "expire":
+			// the tree is removed after its grace period once its instances have finished; enabled
+			// only when nothing of this tree is parked, in flight or waiting to be flushed
+			live := false
+			for k := range e.ctl.Parked() {
+				if strings.HasPrefix(k, "m") {
+					m, _ := strconv.Atoi(k[1:])
+					if e.treeOf[m] == t {
+						live = true
+					}
+				}
+			}
+			e.mu.Lock()
+			waitingFlush := len(e.flushQ[t]) > 0 || e.running[t] != ""
+			e.mu.Unlock()
+			var mine []*fix.Rec
+			for _, rec := range fix.AllRecs() {
+				if rec.Tni.Token().TreeID.Equal(e.trees[t].ID) && e.ov.VerifInstanceState(rec.Tni.Token()) == "live" {
+					mine = append(mine, rec)
+				}
+			}
+			if live || waitingFlush || len(mine) == 0 || e.ov.VerifPendingCount(e.trees[t].ID) > 0 ||
+				!strings.HasPrefix(e.ov.VerifTreeState(e.trees[t].ID), "present") {
+				cs.Impl = append(cs.Impl, "disabled")
+				return true
+			}
+			for _, rec := range mine {
+				rec.Tni.Done()
+			}
+			gone := false
+			for dl := time.Now().Add(3 * time.Second); time.Now().Before(dl) && !gone; time.Sleep(300 * time.Microsecond) {
+				gone = e.ov.VerifTreeState(e.trees[t].ID) == "absent"
+			}
+			if !gone {
+				cs.Fail("tree-not-released", "all instances of the tree finished and the grace period (1 ms) passed, the tree is still "+e.ov.VerifTreeState(e.trees[t].ID))
+			}
+			// later messages belong to new runs (the finished ones drop theirs)
+			for r := 0; r < 2; r++ {
+				e.rounds[t][r] = uuid.New()
 			}
 			cs.Impl = append(cs.Impl, e.obs(t))
 		case "flush":
@@ -343,7 +388,7 @@ func c01exec(c *h.Ctx, cs *h.Case) {
 			cs.Fail("duplicated", fmt.Sprintf("message %d was handed over %d times", m, e.handedN[m]))
 		} else if e.handedN[m] == 0 && e.ov.VerifPendingCount(e.trees[t].ID) == 0 {
 			cs.Fail("lost", fmt.Sprintf("message %d was neither handed over nor parked", m))
-		} else if e.handedN[m] == 1 && e.handedTo[m] != fix.TokenKey(token(t, m)) {
+		} else if e.handedN[m] == 1 && e.handedTo[m] != e.wantTok[m] {
 			cs.Fail("wrong-instance", fmt.Sprintf("message %d was handed to another instance than the one its token names", m))
 		}
 	}
@@ -356,6 +401,8 @@ func c01gen(c *h.Ctx, yield func(*h.Case)) {
 	yield(&h.Case{Class: "corpus-strand", Ops: []string{"c01 arrive 0 7", "c01 localset 0", "c01 flush 0", "c01 thread 0 7", "c01 thread 0 7"}})
 	yield(&h.Case{Class: "corpus-strand", Ops: []string{"c01 arrive 0 7", "c01 thread 0 7", "c01 thread 0 7", "c01 thread 0 7", "c01 thread 0 7", "c01 thread 0 7",
 		"c01 arrive 0 8", "c01 respond 0", "c01 flush 0", "c01 thread 0 8", "c01 thread 0 8"}})
+	yield(&h.Case{Class: "corpus-expire", Ops: []string{"c01 localset 0", "c01 flush 0", "c01 arrive 0 1", "c01 expire 0", "c01 arrive 0 2", "c01 thread 0 2", "c01 thread 0 2",
+		"c01 thread 0 2", "c01 thread 0 2", "c01 thread 0 2", "c01 respond 0", "c01 flush 0", "c01 arrive 0 3", "c01 expire 0", "c01 expire 0"}})
 	yield(&h.Case{Class: "corpus-round", Ops: []string{"c01 arrive 0 1", "c01 arrive 0 2", "c01 arrive 1 3", "c01 thread 0 1", "c01 thread 0 1", "c01 thread 0 1", "c01 thread 0 1", "c01 thread 0 1",
 		"c01 thread 0 2", "c01 thread 0 2", "c01 thread 0 2", "c01 respond 0", "c01 flush 0", "c01 arrive 0 4"}})
 	for n := 0; n < c.Pick(150, 3000); n++ {
@@ -381,7 +428,11 @@ func c01gen(c *h.Ctx, yield func(*h.Case)) {
 			case x < 16:
 				cs.Ops = append(cs.Ops, fmt.Sprintf("c01 respond %d", r.Intn(2)))
 			case x < 17:
-				cs.Ops = append(cs.Ops, fmt.Sprintf("c01 localset %d", r.Intn(2)))
+				if r.Intn(3) == 0 {
+					cs.Ops = append(cs.Ops, fmt.Sprintf("c01 expire %d", r.Intn(2)))
+				} else {
+					cs.Ops = append(cs.Ops, fmt.Sprintf("c01 localset %d", r.Intn(2)))
+				}
 			default:
 				cs.Ops = append(cs.Ops, fmt.Sprintf("c01 flush %d", r.Intn(2)))
 			}
